@@ -475,7 +475,13 @@ impl<M: Math> TransformedHamiltonian<M, ExternalTransformation<M>> {
         math.read_from_slice(&mut position_array, position);
         let _ = math
             .logp_array(&position_array, &mut gradient_array)
-            .map_err(|e| NutsError::BadInitGrad(Box::new(e)))?;
+            .map_err(|e| {
+                if e.is_recoverable() {
+                    NutsError::BadInitGrad(Box::new(e))
+                } else {
+                    NutsError::LogpFailure(Box::new(e))
+                }
+            })?;
         let mut params = math
             .init_transformation(rng, &position_array, &gradient_array, chain)
             .map_err(|e| NutsError::BadInitGrad(Box::new(e)))?;
@@ -650,9 +656,16 @@ impl<M: Math, T: Transformation<M>> Hamiltonian<M> for TransformedHamiltonian<M,
         math.read_from_slice(&mut point.untransformed_position, init);
 
         let transformation = self.transformation();
+        // A recoverable error only disqualifies this initial point; anything else is a failure of the density.
         point
             .init_from_untransformed_position(transformation, math)
-            .map_err(|e| NutsError::LogpFailure(Box::new(e)))?;
+            .map_err(|e| {
+                if e.is_recoverable() {
+                    NutsError::BadInitGrad(Box::new(e))
+                } else {
+                    NutsError::LogpFailure(Box::new(e))
+                }
+            })?;
 
         if !point.check_all(math) {
             Err(NutsError::BadInitGrad(
@@ -675,7 +688,13 @@ impl<M: Math, T: Transformation<M>> Hamiltonian<M> for TransformedHamiltonian<M,
             &point.untransformed_position,
             &mut point.untransformed_gradient,
         )
-        .map_err(|e| NutsError::LogpFailure(Box::new(e)))?;
+        .map_err(|e| {
+            if e.is_recoverable() {
+                NutsError::BadInitGrad(Box::new(e))
+            } else {
+                NutsError::LogpFailure(Box::new(e))
+            }
+        })?;
         // Force recomputation of transformed coordinates on first leapfrog step
         point.transform_id = -1;
         if !point.check_untransformed(math) {
